@@ -79,6 +79,9 @@ def generate_all_p(all_predicate: AllPredicate) -> Iterator:
         max_length = random.randint(1, 10)
 
         values = take(max_length, generate_true(predicate))
+        if not values:
+            return  # nothing satisfies the element predicate: only the empty collection does
+
         yield random_combination_with_replacement(values, max_length)
 
         values = take(max_length, generate_true(predicate))
@@ -271,6 +274,8 @@ def generate_is_instance_p(predicate: IsInstancePredicate) -> Iterator:
 def generate_any_p(any_predicate: AnyPredicate) -> Iterator:
     predicate = any_predicate.predicate
     values = take(10, generate_true(predicate))
+    if not values:
+        return  # nothing satisfies the element predicate, so no collection satisfies any_p
 
     # TODO: also add some values for which predicate isn't valid
 
